@@ -70,17 +70,7 @@ pub fn verif_io_error(kind: ErrorKind, msg: &str) -> (r: IoError)
 //@include prelude/deps_chunked.rs
 //@include contracts/common_types.inc
 
-impl HeaderField {
-    pub closed spec fn name(&self) -> Seq<char> { self.0@ }
-}
-//@impl src/common.rs "HeaderField"
-//@fn equiv ret r
-//@assume
-//@spec
-    // ASSUMED here (verified in U-PARSE): ASCII case-insensitive comparison of the field name
-    ensures r == eq_ic(other@, self.name()),
-//@endfn
-//@endimpl
+//@include contracts/common_api_assumed.inc
 
 #[verifier::reject_recursive_types(R)]
 //@item src/util/equal_reader.rs struct EqualReader
@@ -330,6 +320,10 @@ impl Request {
                 broadcast use axiom_spec_from;
                 let ghost buf0 = buffer@;
                 let ghost off0 = offset as int;
+//@before? 1 return Err(RequestCreationError::CreationIoError(err))
+                    // C13/C15: the buffered read gives up only when the client's byte stream really ends inside the body --
+                    // never because of how the bytes were segmented (a short read is not an end of stream)
+                    proof { assert(src0.len() < content_length); }   // [C13,C15]
 //@before? 1 offset += read
                 proof {
                     // Seq extensionality hints: prefix kept by the disjoint sub-slice, new bytes = next bytes of the stream
